@@ -70,6 +70,9 @@ class JsonlTraceDriver(TraceDriver):
         self._run_space_file: Optional[IO[str]] = (
             None  # Dedicated file for run_space lifecycle
         )
+        self._run_space_path: Optional[tuple[str, Path]] = (
+            None  # (launch id, file) of the run_space lifecycle file in directory mode
+        )
         self._seq = 0
         flags = (detail or "hash").split(",")
         opts = {"hash": False, "repr": False, "context": False}
@@ -129,11 +132,16 @@ class JsonlTraceDriver(TraceDriver):
             self._run_space_file = self._file
             return
 
-        # Directory mode: create separate runspace file
-        path.mkdir(parents=True, exist_ok=True)
-        timestamp = datetime.now().strftime("%Y%m%d-%H%M%S")
-        path = path / f"{timestamp}_runspace-{run_space_launch_id}.trace.jsonl"
-        self._run_space_file = path.open("a", encoding="utf-8")
+        # Directory mode: create separate runspace file. Its name is fixed at the
+        # first open of a launch: close() runs after every pipeline run, and the
+        # records written afterwards belong in the file that holds the start.
+        known = self._run_space_path
+        if known is None or known[0] != run_space_launch_id:
+            path.mkdir(parents=True, exist_ok=True)
+            timestamp = datetime.now().strftime("%Y%m%d-%H%M%S")
+            path = path / f"{timestamp}_runspace-{run_space_launch_id}.trace.jsonl"
+            known = self._run_space_path = (run_space_launch_id, path)
+        self._run_space_file = known[1].open("a", encoding="utf-8")
 
     # TraceDriver --------------------------------------------------------------
     def on_pipeline_start(
